@@ -139,15 +139,37 @@ func c14OneOutcome(c *Ctx) {
 	}
 	for _, s := range reg.Find(errSend) {
 		snd := s.In.(*ssa.Send)
-		// the back edge taken after this send
-		b := snd.Block()
-		var incoming ssa.Value
-		for i, pr := range l.Head.Preds {
-			if pr == b {
-				incoming = dead.Edges[i]
+		// the value that reaches the header's phi along the jumps taken after this send (through the merge
+		// blocks of intermediate variables)
+		vals := map[ssa.Value]bool{snd.X: true, canon(snd.X): true}
+		ok := false
+		for b, hops := snd.Block(), 0; hops < 12 && len(b.Succs) == 1; hops++ {
+			nb := b.Succs[0]
+			idx := -1
+			for i, pr := range nb.Preds {
+				if pr == b {
+					idx = i
+				}
 			}
+			if idx < 0 {
+				break
+			}
+			if nb == l.Head {
+				in := dead.Edges[idx]
+				ok = vals[in] || vals[canon(in)] || (in == ssa.Value(dead) && sameValue(snd.X, dead))
+				break
+			}
+			for _, in := range nb.Instrs {
+				ph, isPhi := in.(*ssa.Phi)
+				if !isPhi {
+					break
+				}
+				if vals[ph.Edges[idx]] || vals[canon(ph.Edges[idx])] {
+					vals[ph] = true
+				}
+			}
+			b = nb
 		}
-		ok := incoming != nil && (sameValue(incoming, snd.X) || (incoming == ssa.Value(dead) && sameValue(snd.X, dead)))
 		c.Check(ok, "C14.dead", fn, "sticky", snd, "the error sent becomes the sticky failure for all later promises", "after this error the receive loop keeps reading the (desynchronised) connection for later promises instead of failing them", nil)
 	}
 	// under dead != nil nothing is read from the connection
